@@ -219,6 +219,17 @@ class Check:
         """Concrete failure of the property's spec on the implementation."""
         self.concrete.append((key, what, replay))
 
+    def impl_call(self, key, case, fn, *a, **kw):
+        """Call the implementation on an input inside the property's domain; an exception
+        is a concrete failure (no result where the property promises one)."""
+        try:
+            return True, fn(*a, **kw)
+        except Exception as e:  # noqa: BLE001
+            import traceback
+            self.fail(key, f"implementation raised {type(e).__name__} on a valid input",
+                      {"case": case, "exception": repr(e)[:300], "traceback": traceback.format_exc()[-1200:]})
+            return False, None
+
     def disagree(self, name, detail):
         """Model and implementation differ (correspondence broken)."""
         self.broken.append((f"correspondence:{name}", detail))
